@@ -903,3 +903,38 @@ M('C18', 'marker-scan-loop-breaks-early', 'nbdime/vcs/git/mergedriver.py', _MD_S
                 if 'merge=jupyternotebook' in line.split():
                     return
 """, 'R18.4')
+
+# ---- round 6
+M('C04', 'conflicts-recorded-inside-string-typed-namespace', MNB, '        "/cells/*/metadata": metadata_strategy,\n',
+  '        "/cells/*/metadata": metadata_strategy,\n        "/cells/*/metadata/execution": metadata_strategy,\n', 'R04.1')
+T('C04', 'twin-conflicts-recorded-in-free-form-namespace', MNB, '        "/cells/*/metadata": metadata_strategy,\n',
+  '        "/cells/*/metadata": metadata_strategy,\n        "/cells/*/metadata/jupyter": metadata_strategy,\n')
+M('C02', 'predicate-asked-with-swapped-operands', 'nbdime/diffing/seq_bruteforce.py', '    return [[compare(a, b) for b in B] for a in A]', '    return [[compare(b, a) for b in B] for a in A]', 'R02.20')
+M('C02', 'shorter-sequence-first-optimisation', 'nbdime/diffing/snakes.py', '    snakes = bruteforce_compute_snakes(A[i0:i1], B[j0:j1], compare)\n',
+  '    snakes = [(i, j, n) for (j, i, n) in bruteforce_compute_snakes(B[j0:j1], A[i0:i1], compare)]\n', 'R02.20')
+T('C02', 'twin-slices-named-before-the-call', 'nbdime/diffing/snakes.py', '    snakes = bruteforce_compute_snakes(A[i0:i1], B[j0:j1], compare)\n',
+  '    sub_a, sub_b = A[i0:i1], B[j0:j1]\n    snakes = bruteforce_compute_snakes(sub_a, sub_b, compare)\n')
+M('C07', 'replace-vs-delete-registered-as-keep-base-conflict', MG, "            decisions.onesided(path, a0, a1)\n            decisions.agreement(path, p0, p1)\n",
+  "            decisions.conflict(path, d0, d1, item_strategy)\n", 'R07.16')
+T('C07', 'twin-replace-vs-delete-agreement-first', MG, "            decisions.onesided(path, a0, a1)\n            decisions.agreement(path, p0, p1)\n",
+  "            decisions.agreement(path, p0, p1)\n            decisions.onesided(path, a0, a1)\n")
+M('C08', 'conflict-list-made-lazy-and-read-twice', APP, "    conflicted = [d for d in decisions if d.conflict]\n\n    returncode = 1 if conflicted else 0\n",
+  "    conflicted = (d for d in decisions if d.conflict)\n    for d in conflicted:\n        logger.debug('conflict at %s', d.common_path)\n\n    returncode = 1 if any(conflicted) else 0\n", 'R08.13')
+T('C08', 'twin-conflict-list-logged-then-tested', APP, "    conflicted = [d for d in decisions if d.conflict]\n\n    returncode = 1 if conflicted else 0\n",
+  "    conflicted = [d for d in decisions if d.conflict]\n    for d in conflicted:\n        logger.debug('conflict at %s', d.common_path)\n\n    returncode = 1 if conflicted else 0\n")
+M('C08', 'failed-write-removes-the-output', APP, "        nbformat.write(merged, mfn)\n", "        try:\n            nbformat.write(merged, mfn)\n        except Exception:\n            if os.path.isfile(mfn):\n                os.remove(mfn)\n            raise\n", 'R08.14')
+T('C08', 'twin-failed-write-logged-and-reraised', APP, "        nbformat.write(merged, mfn)\n", "        try:\n            nbformat.write(merged, mfn)\n        except Exception:\n            logger.error('could not write %s', mfn)\n            raise\n")
+M('C10', 'has-conflicted-behind-a-cached-flag', DEC, "        return any(d.conflict for d in self.decisions)", "        return getattr(self, '_seen_conflict', False) and any(d.conflict for d in self.decisions)", 'R10.10')
+T('C10', 'twin-has-conflicted-via-get-conflicted', DEC, "        return any(d.conflict for d in self.decisions)", "        return bool(self.get_conflicted())")
+M('C13', 'inserted-cells-list-extended-in-place', STR, "    lcells = local_diff[0].valuelist + base_cells[start : start + lkeep]\n",
+  "    lcells = local_diff[0].valuelist\n    lcells += base_cells[start : start + lkeep]\n", 'R13.3')
+T('C13', 'twin-inserted-cells-list-copied-then-extended', STR, "    lcells = local_diff[0].valuelist + base_cells[start : start + lkeep]\n",
+  "    lcells = list(local_diff[0].valuelist)\n    lcells += base_cells[start : start + lkeep]\n")
+M('C11', 'remove-strategy-counts-entries-instead-of-ops', STR, "            if all(e.op == DiffOp.ADDRANGE for e in local_diff + remote_diff):\n",
+  "            if (len(local_diff) == len(remote_diff) == 1 and\n                    local_diff[0].op == remote_diff[0].op == DiffOp.ADDRANGE):\n", 'R11.12')
+T('C11', 'twin-remove-strategy-any-existing-op', STR, "            if all(e.op == DiffOp.ADDRANGE for e in local_diff + remote_diff):\n",
+  "            if not any(e.op != DiffOp.ADDRANGE for e in local_diff + remote_diff):\n")
+M('C11', 'inline-cells-keeps-both-sides-removal', STR, "            rdiff = []\n            if len(d.local_diff) > 1:\n                rdiff.append(d.local_diff[1])\n            elif len(d.remote_diff) > 1:\n                rdiff.append(d.remote_diff[1])\n",
+  "            rdiff = d.local_diff[1:] + d.remote_diff[1:]\n", 'R11.13')
+T('C11', 'twin-inline-cells-removal-by-conditional-expression', STR, "            rdiff = []\n            if len(d.local_diff) > 1:\n                rdiff.append(d.local_diff[1])\n            elif len(d.remote_diff) > 1:\n                rdiff.append(d.remote_diff[1])\n",
+  "            rdiff = []\n            if len(d.local_diff) > 1:\n                rdiff = [d.local_diff[1]]\n            elif len(d.remote_diff) > 1:\n                rdiff = [d.remote_diff[1]]\n")
